@@ -26,6 +26,7 @@ EXPLANATION = (
 EXPLANATION += (' Module-level add_tag is atomic (a rejected name has not been stored). itemize is a pipeline over enumerate(names) / range(len(names)) / zip(names, range(len(names))).')
 EXPLANATION += (' R-DISC: _tag_names, _tag_counter and the instance dictionary are written by TagLibrary.__init__ and add_tag (and their private helpers) only, and __init__ is called by construction only.')
 EXPLANATION += (' The documented error classes are ordinary Exception subclasses whose constructors only store and format (no typed format specifications).')
+EXPLANATION += (" A fresh library's constructor stores no public attribute besides NONE; no other module writes an attribute of the tag module or of its global library.")
 ASSUMPTIONS = ["tag names are strings (quantifier)", "instance dict precedes non-data class attributes; module globals precede module __getattr__ (language facts)",
                "single-threaded use"]
 
@@ -57,6 +58,18 @@ def run(cx: Cx):
             cx.violation('R-PAIR', init.qualname, 'initial-state-NONE-0-counter-is-len-names',
                          f"TagLibrary.__init__ sets NONE={none!r}, counter={c0!r}, names={nm!r}: the induction base "
                          f"(NONE is id 0, counter == len(names), names[0] == 'NONE') does not hold", where=cx.where(init))
+    # a fresh library knows NONE and nothing else: every other public attribute the constructor stores answers like a tag that was
+    # never added (`lib.name`), and add_tag refuses that name although itemize never lists it
+    for p in cx.walker.paths(init, WalkOptions(unroll=0)):
+        extra_ = [e.data.get('attr') for e in p.events if e.kind == 'store' and e.data.get('store') == 'rebind' and e.data.get('attr')
+                  and not str(e.data.get('attr')).startswith('_') and e.data.get('attr') != 'NONE']
+        if extra_:
+            cx.violation('R-NS', init.qualname, 'fresh-library-holds-only-NONE',
+                         f"TagLibrary.__init__ stores the public attribute(s) {extra_} in the instance dictionary, which is the tag table: "
+                         f"those names resolve like tags without having been added, and cannot be added", where=cx.where(init))
+            break
+    else:
+        cx.ok('R-NS', 'the constructor stores no public attribute besides NONE', where=cx.where(init), function=init.qualname)
     # R-SHARED
     muts = [k for k, v in tl.class_assigns.items() if isinstance(v, (ast.List, ast.Dict, ast.Set, ast.Call, ast.ListComp))]
     if muts:
@@ -354,6 +367,34 @@ def run(cx: Cx):
                      f"every library in the process", where=f"{mod.relpath}:{dyn[0].lineno}")
     else:
         cx.ok('R-NS', 'no code binds names in the module globals at run time', where=mod.relpath, function=mod.name)
+    # the global library is the one object created at import: nobody swaps it (a scratch library installed "for the duration of a run"
+    # stays installed when the run raises, and the tags added before are gone) and nobody rewinds it from outside
+    swap = None
+    for mi_ in prog.modules.values():
+        aliases_ = {a for a, tgt_ in mi_.imports.items() if tgt_ == mod.name} | ({mod.name.rsplit('.', 1)[-1]} if mi_ is mod else set())
+        for n_ in ast.walk(mi_.tree):
+            if isinstance(n_, ast.Attribute) and isinstance(n_.ctx, (ast.Store, ast.Del)):
+                root_ = n_.value
+                # Tags.<anything> = ... / Tags._module_library.<field> = ... written from another module
+                chain_ = []
+                while isinstance(root_, ast.Attribute):
+                    chain_.append(root_.attr)
+                    root_ = root_.value
+                if isinstance(root_, ast.Name) and root_.id in aliases_ and mi_ is not mod:
+                    swap = swap or (mi_, n_)
+            if isinstance(n_, ast.Global) and mi_ is mod and '_module_library' in n_.names:
+                swap = swap or (mi_, n_)
+            if isinstance(n_, ast.Call) and isinstance(n_.func, ast.Name) and n_.func.id == 'delattr' and mi_ is not mod and n_.args and \
+                    isinstance(n_.args[0], ast.Attribute) and isinstance(n_.args[0].value, ast.Name) and n_.args[0].value.id in aliases_:
+                swap = swap or (mi_, n_)
+    if swap:
+        mi_, n_ = swap
+        cx.violation('R-NS', mi_.name, 'global-library-is-never-swapped-or-edited-from-outside',
+                     f"{mi_.relpath}:{n_.lineno} writes into the tag module ({ast.unparse(n_)[:70]}): the global library's state is changed "
+                     f"behind the library's own operations - ids are reissued, or names listed by itemize() no longer resolve",
+                     where=f"{mi_.relpath}:{n_.lineno}")
+    else:
+        cx.ok('R-NS', 'no other module writes into the tag module or its global library', where=mod.relpath, function=mod.name)
 
 
 def _rejects_class_names(cond, self_s, name) -> bool:
